@@ -279,6 +279,35 @@ def main(payload):
             distinct.add(('symbols', name, tag))
             if len(samples) < 2:
                 samples.append({'program': src, 'scope': tag, 'names': sorted(all_pfst)})
+    # (4) scope walk while the node just yielded is replaced by a node that opens a scope of its own: what is yielded
+    #     afterwards must be what a fresh scope walk of the final tree yields (only the parts of the new node that live in
+    #     the walked scope: lambda defaults, the first iterable of a generator)
+    SRC_R = 'def build(items, base):\n    total = PLACEHOLDER\n    rows = other\n    return total, rows\n'
+    for rname, repl in (('lambda_default', 'lambda inc=base: hidden + inc'), ('genexp', '(hidden * cell for cell in items if cell)'),
+                        ('listcomp_nested', '[h for h in [i for i in items]]'), ('plain_call', 'f(base, items)'),
+                        ('lambda_in_call', 'g(lambda q=base: hidden)')):
+        for back in (False, True):
+            ev += 1
+            mod = FST(SRC_R, 'exec')
+            func = mod.body[0]
+            yielded = []
+            try:
+                for g in func.walk(True, scope=True, back=back):
+                    if g.a.__class__.__name__ == 'Name' and g.a.id == 'PLACEHOLDER':
+                        g = g.replace(repl)
+                    yielded.append(g)
+            except Exception as e:
+                fail(f'walk.scope_replace:{rname}:back={back}', f'scope walk with the yielded name replaced by {repl!r} raised {e!r}')
+                continue
+            alive = {id(g) for g in yielded if g.a is not None}
+            fresh = list(func.walk(True, scope=True, back=back))
+            extra = [g for g in yielded if g.a is not None and id(g) not in {id(x) for x in fresh}]
+            missing = [x for x in fresh if id(x) not in alive]
+            distinct.add(('scope_replace', rname, back))
+            if extra or missing:
+                fail(f'walk.scope_replace:{rname}:back={back}', f'scope walk of build() with the yielded placeholder replaced by '
+                     f'{repl!r}: yielded outside the scope {[x.src[:20] for x in extra][:4]}, missed '
+                     f'{[x.src[:20] for x in missing][:4]} (compared with a fresh scope walk of the final tree)')
     return {'name': 'C16.B.scope', 'evaluations': ev, 'distinct_nontrivial': len(distinct),
             'rule': 'every module / function / lambda / class scope of a table of scope programs: (1) Name/arg nodes of '
                     'walk(scope=True) == language-reference scope membership, (2) scope_symbols(full=True) names and '
